@@ -1,15 +1,972 @@
-//! C03 — not built yet.
+//! C03 — ignore files apply only inside their directory; the nearest match wins.
+//!
+//! Bounded-exhaustive enumeration (engine ENUM, DESIGN.md section 7 "C03").
+//!
+//! *Tree* (one maximal tree, the filter never looks at the tree itself — only at where the
+//! ignore files apply and at the probe paths): origin `o/` with `test`, `tests`, `a`,
+//! `test/a`, `tests/a`, `a/a`; next to the origin an unrelated directory `w/` and a
+//! directory `ox/` whose name has the origin's name as a string prefix.
+//! *Sites* an ignore file can apply in: global, `o`, `test`, `tests`, `a`, `test/a`, `tests/a`.
+//! *Lines*: `x.log *.log a/ /a a/x.log **/x.log a/**` + `test/ /test test/**` (the grammar
+//! instantiated on the tree's names), each also negated (20 lines; thorough's large
+//! families use the 14 lines of the base grammar).
+//! *Configurations* (files in listed order):
+//!   quick    = 1 file x (1 | 2 lines), 2 files x 1 line on every pair of sites (same site:
+//!              both listed orders)                                           (13 860 configs)
+//!   thorough = quick + 2 files (2 lines, 1 line) + 3 files x 1 line          (~3.7e5 configs)
+//! *Operation sequences per configuration*: `new(all)` twice, `new(perm)` for every
+//! permutation that keeps same-site files in listed order, `new(∅)+add_file` in every such
+//! order, `new(first k)+add_file(rest)`, `new(∅)+add_globs`.
+//! *Probes*: every directory of the tree and `x.log`, `keep.log`, `a` under each, the
+//! origin itself, `w/x.log`, `ox/{x.log,keep.log,a}`; each as file and as directory;
+//! observables `IgnoreFilterer::check_event` (single-path event) and, for directories,
+//! `IgnoreFilter::check_dir`.
+//! *Oracle*: IgnoreCompose (`model`): component-wise ancestors of the path, nearest first;
+//! all files applying in one directory form one git-style list in listed order (last
+//! matching line wins, a directory match covers what is below it — decided by the `ignore`
+//! crate's single-file `Gitignore`, the trusted base); first directory with a match
+//! decides; then the global files (patterns relative to the origin, as git does for
+//! core.excludesFile). Unspecified by the statement and therefore skipped: a path probed
+//! against an ignore file applying in that very path (the model is evaluated with and
+//! without that file; the probe is skipped when the two differ).
+//! *Read-completion leg*: same-site files as FIFOs released in every order; the verdict
+//! must follow listed order whatever order the reads complete in.
+//!
+//! Deviations from DESIGN.md: one maximal tree instead of a family of sub-trees (the code
+//! under test never reads the tree); the `git check-ignore` second oracle is not built (the
+//! per-file matcher is the trusted `ignore` crate in both the model and the code under
+//! test, what is checked is this repository's composition).
+
+use std::{
+	collections::{BTreeMap, BTreeSet},
+	io::Write as _,
+	panic::{catch_unwind, AssertUnwindSafe},
+	path::{Path, PathBuf},
+	time::Duration,
+};
+
 use dex::orch::Tier;
-use serde_json::Value;
+use ignore_files::{IgnoreFile, IgnoreFilter};
+use serde_json::{json, Value};
+use watchexec::filter::Filterer;
+use watchexec_events::{Event, FileType, Priority, Tag};
+use watchexec_filterer_ignore::IgnoreFilterer;
 
-use crate::common::EnumOut;
+use crate::common::{par_map, EnumOut, Scratch};
 
-pub fn replay(_input: &Value) -> Vec<(String, String)> {
-	vec![]
+/// IgnoreCompose: the reference model, written from the property statement.
+pub(crate) mod model {
+	use std::path::{Path, PathBuf};
+
+	use ignore::{
+		gitignore::{Gitignore, GitignoreBuilder},
+		Match,
+	};
+
+	#[derive(Clone, Debug)]
+	pub struct MFile {
+		/// `None` = global
+		pub applies_in: Option<PathBuf>,
+		pub lines: Vec<String>,
+	}
+
+	#[derive(Clone, Debug, PartialEq, Eq)]
+	pub struct Decision {
+		pub ignored: bool,
+		/// (directory whose list decided; `None` = the global list, negated?, pattern)
+		pub by: Option<(Option<PathBuf>, bool, String)>,
+	}
+
+	pub struct Compose {
+		origin: PathBuf,
+		dirs: Vec<(PathBuf, Gitignore)>,
+		global: Option<Gitignore>,
+	}
+
+	fn build(root: &Path, lines: &[&String]) -> Result<Gitignore, String> {
+		let mut b = GitignoreBuilder::new(root);
+		for l in lines {
+			b.add_line(None, l).map_err(|e| e.to_string())?;
+		}
+		b.build().map_err(|e| e.to_string())
+	}
+
+	impl Compose {
+		/// `files` in listed order (= precedence among files applying in the same directory).
+		pub fn new(origin: &Path, files: &[MFile]) -> Result<Self, String> {
+			let mut keys: Vec<Option<PathBuf>> = vec![];
+			for f in files {
+				if !keys.contains(&f.applies_in) {
+					keys.push(f.applies_in.clone());
+				}
+			}
+			let mut dirs = vec![];
+			let mut global = None;
+			for k in keys {
+				let lines: Vec<&String> = files.iter().filter(|f| f.applies_in == k).flat_map(|f| f.lines.iter()).collect();
+				match k {
+					Some(d) => {
+						let g = build(&d, &lines)?;
+						dirs.push((d, g));
+					}
+					None => global = Some(build(origin, &lines)?),
+				}
+			}
+			Ok(Self { origin: origin.to_path_buf(), dirs, global })
+		}
+
+		pub fn has_files_in(&self, dir: &Path) -> bool {
+			self.dirs.iter().any(|(d, _)| d == dir)
+		}
+
+		/// `include_self`: also consult the files applying in `path` itself (the case the
+		/// property leaves unspecified; callers compare both answers).
+		pub fn decide(&self, path: &Path, is_dir: bool, include_self: bool) -> Decision {
+			let mut cur = if include_self { Some(path) } else { path.parent() };
+			while let Some(d) = cur {
+				if let Some((_, g)) = self.dirs.iter().find(|(k, _)| k == d) {
+					// `path` is `d` or below it, component-wise
+					match g.matched_path_or_any_parents(path, is_dir) {
+						Match::None => {}
+						Match::Ignore(gl) => {
+							return Decision { ignored: true, by: Some((Some(d.to_path_buf()), false, gl.original().to_string())) }
+						}
+						Match::Whitelist(gl) => {
+							return Decision { ignored: false, by: Some((Some(d.to_path_buf()), true, gl.original().to_string())) }
+						}
+					}
+				}
+				cur = d.parent();
+			}
+			if let Some(g) = &self.global {
+				let m = if path.starts_with(&self.origin) { g.matched_path_or_any_parents(path, is_dir) } else { g.matched(path, is_dir) };
+				match m {
+					Match::None => {}
+					Match::Ignore(gl) => return Decision { ignored: true, by: Some((None, false, gl.original().to_string())) },
+					Match::Whitelist(gl) => return Decision { ignored: false, by: Some((None, true, gl.original().to_string())) },
+				}
+			}
+			Decision { ignored: false, by: None }
+		}
+	}
 }
 
-pub fn run(_tier: Tier, _seed: u64) -> EnumOut {
-	let mut o = EnumOut::new("not built");
-	o.machinery = Some("check not built yet".into());
-	o
+use model::{Compose, MFile};
+
+const GLOBAL: &str = "<global>";
+/// sites an ignore file can apply in (relative to the origin; "" = the origin)
+const SITES: [&str; 7] = [GLOBAL, "", "test", "tests", "a", "test/a", "tests/a"];
+const TREE: [&str; 6] = ["test", "tests", "a", "test/a", "tests/a", "a/a"];
+const BASE: [&str; 7] = ["x.log", "*.log", "a/", "/a", "a/x.log", "**/x.log", "a/**"];
+const EXTRA: [&str; 3] = ["test/", "/test", "test/**"];
+const NAMES: [&str; 3] = [".gitignore", ".ignore", ".hgignore"];
+
+#[derive(Clone, Debug, PartialEq, Eq, Hash)]
+struct FileSpec {
+	site: String,
+	lines: Vec<String>,
+}
+
+#[derive(Clone, Debug, PartialEq, Eq, Hash)]
+struct Config {
+	files: Vec<FileSpec>,
+}
+
+impl Config {
+	fn json(&self) -> Value {
+		json!(self.files.iter().map(|f| json!({"site": f.site, "lines": f.lines})).collect::<Vec<_>>())
+	}
+	fn from_json(v: &Value) -> Option<Self> {
+		let mut files = vec![];
+		for f in v.as_array()? {
+			files.push(FileSpec {
+				site: f["site"].as_str()?.to_string(),
+				lines: f["lines"].as_array()?.iter().filter_map(|l| l.as_str().map(str::to_string)).collect(),
+			});
+		}
+		Some(Config { files })
+	}
+	fn has_same_site_files(&self) -> bool {
+		let mut s = BTreeSet::new();
+		self.files.iter().any(|f| !s.insert(&f.site))
+	}
+}
+
+fn lines(all: bool) -> Vec<String> {
+	let mut v: Vec<String> = BASE.iter().map(|s| s.to_string()).collect();
+	if all {
+		v.extend(EXTRA.iter().map(|s| s.to_string()));
+	}
+	let neg: Vec<String> = v.iter().map(|s| format!("!{s}")).collect();
+	v.extend(neg);
+	v
+}
+
+fn configs(tier: Tier) -> Vec<Config> {
+	let l20 = lines(true);
+	let l14 = lines(false);
+	let fs = |site: &str, ls: &[&String]| FileSpec { site: site.to_string(), lines: ls.iter().map(|s| (*s).clone()).collect() };
+	let mut out = vec![];
+	// one file, one or two lines
+	for s in SITES {
+		for a in &l20 {
+			out.push(Config { files: vec![fs(s, &[a])] });
+			for b in &l20 {
+				if a != b {
+					out.push(Config { files: vec![fs(s, &[a, b])] });
+				}
+			}
+		}
+	}
+	// two files, one line each; same site: both listed orders (ordered pairs of distinct lines)
+	for (i, s1) in SITES.iter().enumerate() {
+		for s2 in &SITES[i..] {
+			for a in &l20 {
+				for b in &l20 {
+					if s1 == s2 && a == b {
+						continue;
+					}
+					out.push(Config { files: vec![fs(s1, &[a]), fs(s2, &[b])] });
+				}
+			}
+		}
+	}
+	if tier == Tier::Thorough {
+		// two files: (two lines, one line), either listed first
+		for s1 in SITES {
+			for s2 in SITES {
+				for a in &l14 {
+					for b in &l14 {
+						if a == b {
+							continue;
+						}
+						for c in &l14 {
+							out.push(Config { files: vec![fs(s1, &[a, b]), fs(s2, &[c])] });
+							if s1 == s2 {
+								out.push(Config { files: vec![fs(s2, &[c]), fs(s1, &[a, b])] });
+							}
+						}
+					}
+				}
+			}
+		}
+		// three files, one line each; listed sorted by site, same-site files in every order
+		for (i, s1) in SITES.iter().enumerate() {
+			for (j, s2) in SITES.iter().enumerate().skip(i) {
+				for s3 in &SITES[j..] {
+					for a in &l14 {
+						for b in &l14 {
+							if s1 == s2 && a == b {
+								continue;
+							}
+							for c in &l14 {
+								if (s2 == s3 && b == c) || (s1 == s3 && a == c) {
+									continue;
+								}
+								out.push(Config { files: vec![fs(s1, &[a]), fs(s2, &[b]), fs(s3, &[c])] });
+							}
+						}
+					}
+				}
+			}
+		}
+	}
+	out
+}
+
+#[derive(Clone, Debug)]
+struct Probe {
+	rel: String,
+	path: PathBuf,
+	is_dir: bool,
+	class: &'static str,
+}
+
+/// probe paths relative to the scratch base, with their class
+fn probe_rels() -> Vec<(String, &'static str)> {
+	let mut rels: Vec<(String, &'static str)> = vec![];
+	let mut push = |r: String, c: &'static str| {
+		if !rels.iter().any(|(x, _)| *x == r) {
+			rels.push((r, c));
+		}
+	};
+	push("o".into(), "origin");
+	for d in std::iter::once("").chain(TREE) {
+		let p = if d.is_empty() { "o".to_string() } else { format!("o/{d}") };
+		push(p.clone(), "inside");
+		for leaf in ["x.log", "keep.log", "a"] {
+			push(format!("{p}/{leaf}"), "inside");
+		}
+	}
+	push("w/x.log".into(), "outside");
+	for leaf in ["x.log", "keep.log", "a"] {
+		push(format!("ox/{leaf}"), "outside-origin-name-prefix");
+	}
+	rels
+}
+
+struct Ctx {
+	base: PathBuf,
+	origin: PathBuf,
+	rt: tokio::runtime::Runtime,
+	probes: Vec<Probe>,
+}
+
+impl Ctx {
+	fn new(base: &Path) -> Self {
+		std::fs::create_dir_all(base).expect("base");
+		let base = std::fs::canonicalize(base).expect("canonical base");
+		let origin = base.join("o");
+		for d in TREE {
+			std::fs::create_dir_all(origin.join(d)).expect("tree");
+		}
+		for d in ["home", "w", "ox"] {
+			std::fs::create_dir_all(base.join(d)).expect("tree");
+		}
+		let rels = probe_rels();
+		let mut probes = vec![];
+		for (r, c) in rels {
+			for is_dir in [false, true] {
+				probes.push(Probe { path: base.join(&r), rel: r.clone(), is_dir, class: c });
+			}
+		}
+		let rt = tokio::runtime::Builder::new_current_thread().enable_all().build().expect("runtime");
+		Ctx { base, origin, rt, probes }
+	}
+
+	fn site_dir(&self, site: &str) -> Option<PathBuf> {
+		match site {
+			GLOBAL => None,
+			"" => Some(self.origin.clone()),
+			s => Some(self.origin.join(s)),
+		}
+	}
+
+	/// (real ignore files, model files) for a configuration; file k applying in a site is
+	/// stored as that directory's k-th ignore file name (global: under `home/`).
+	fn layout(&self, cfg: &Config) -> (Vec<IgnoreFile>, Vec<MFile>) {
+		let mut per_site: BTreeMap<&str, usize> = BTreeMap::new();
+		let mut real = vec![];
+		let mut mf = vec![];
+		for f in &cfg.files {
+			let k = per_site.entry(f.site.as_str()).or_insert(0);
+			let dir = self.site_dir(&f.site);
+			let path = match &dir {
+				None => self.base.join("home").join(format!("global-{k}.ignore")),
+				Some(d) => d.join(NAMES.get(*k).copied().unwrap_or(".extraignore")),
+			};
+			*k += 1;
+			real.push(IgnoreFile { path, applies_in: dir.clone(), applies_to: None });
+			mf.push(MFile { applies_in: dir, lines: f.lines.clone() });
+		}
+		(real, mf)
+	}
+}
+
+#[derive(Clone, Debug, PartialEq, Eq)]
+enum Cons {
+	New(Vec<usize>),
+	NewRepeat,
+	AddFile(Vec<usize>),
+	Prefix(usize),
+	AddGlobs,
+}
+
+impl Cons {
+	fn kind(&self, n: usize) -> &'static str {
+		let listed: Vec<usize> = (0..n).collect();
+		match self {
+			Cons::New(o) if *o == listed => "new",
+			Cons::New(_) => "new-permuted",
+			Cons::NewRepeat => "new-repeat",
+			Cons::AddFile(o) if *o == listed => "add_file",
+			Cons::AddFile(_) => "add_file-permuted",
+			Cons::Prefix(_) => "new-prefix+add_file",
+			Cons::AddGlobs => "add_globs",
+		}
+	}
+	fn label(&self) -> String {
+		match self {
+			Cons::New(o) => format!("new{o:?}"),
+			Cons::NewRepeat => "new-repeat".into(),
+			Cons::AddFile(o) => format!("new[]+add_file{o:?}"),
+			Cons::Prefix(k) => format!("new[..{k}]+add_file[{k}..]"),
+			Cons::AddGlobs => "new[]+add_globs".into(),
+		}
+	}
+}
+
+/// permutations of 0..n that keep files of the same site in listed order
+fn valid_orders(cfg: &Config) -> Vec<Vec<usize>> {
+	fn rec(cfg: &Config, cur: &mut Vec<usize>, used: &mut Vec<bool>, out: &mut Vec<Vec<usize>>) {
+		let n = cfg.files.len();
+		if cur.len() == n {
+			out.push(cur.clone());
+			return;
+		}
+		for i in 0..n {
+			if used[i] {
+				continue;
+			}
+			// every earlier-listed file of the same site must already be placed
+			if (0..i).any(|j| !used[j] && cfg.files[j].site == cfg.files[i].site) {
+				continue;
+			}
+			used[i] = true;
+			cur.push(i);
+			rec(cfg, cur, used, out);
+			cur.pop();
+			used[i] = false;
+		}
+	}
+	let mut out = vec![];
+	rec(cfg, &mut vec![], &mut vec![false; cfg.files.len()], &mut out);
+	out
+}
+
+fn constructions(cfg: &Config) -> Vec<Cons> {
+	let n = cfg.files.len();
+	let orders = valid_orders(cfg);
+	let mut v = vec![];
+	for o in &orders {
+		v.push(Cons::New(o.clone()));
+	}
+	v.push(Cons::NewRepeat);
+	for o in &orders {
+		v.push(Cons::AddFile(o.clone()));
+	}
+	for k in 1..n {
+		v.push(Cons::Prefix(k));
+	}
+	v.push(Cons::AddGlobs);
+	v
+}
+
+fn build(ctx: &Ctx, cons: &Cons, real: &[IgnoreFile], cfg: &Config) -> Result<IgnoreFilter, String> {
+	let origin = ctx.origin.clone();
+	ctx.rt.block_on(async {
+		let pick = |o: &[usize]| o.iter().map(|i| real[*i].clone()).collect::<Vec<_>>();
+		match cons {
+			Cons::New(o) => IgnoreFilter::new(&origin, &pick(o)).await.map_err(|e| e.to_string()),
+			Cons::NewRepeat => IgnoreFilter::new(&origin, real).await.map_err(|e| e.to_string()),
+			Cons::AddFile(o) => {
+				let mut f = IgnoreFilter::new(&origin, &[]).await.map_err(|e| e.to_string())?;
+				for i in o {
+					f.add_file(&real[*i]).await.map_err(|e| e.to_string())?;
+				}
+				Ok(f)
+			}
+			Cons::Prefix(k) => {
+				let mut f = IgnoreFilter::new(&origin, &real[..*k]).await.map_err(|e| e.to_string())?;
+				for file in &real[*k..] {
+					f.add_file(file).await.map_err(|e| e.to_string())?;
+				}
+				Ok(f)
+			}
+			Cons::AddGlobs => {
+				let mut f = IgnoreFilter::new(&origin, &[]).await.map_err(|e| e.to_string())?;
+				for (spec, file) in cfg.files.iter().zip(real) {
+					let globs: Vec<&str> = spec.lines.iter().map(String::as_str).collect();
+					f.add_globs(&globs, file.applies_in.as_ref()).map_err(|e| e.to_string())?;
+				}
+				Ok(f)
+			}
+		}
+	})
+}
+
+fn event_for(p: &Probe) -> Event {
+	Event {
+		tags: vec![Tag::Path { path: p.path.clone(), file_type: Some(if p.is_dir { FileType::Dir } else { FileType::File }) }],
+		metadata: Default::default(),
+	}
+}
+
+/// One entry per (probe, observable): `Some(ignored)`.
+fn observe(f: &IgnoreFilterer, probes: &[Probe], evals: &mut u64) -> Vec<bool> {
+	let mut v = Vec::with_capacity(probes.len() * 2);
+	for p in probes {
+		*evals += 1;
+		v.push(!f.check_event(&event_for(p), Priority::Normal).unwrap_or(true));
+		if p.is_dir {
+			*evals += 1;
+			v.push(!f.0.check_dir(&p.path));
+		}
+	}
+	v
+}
+
+/// entry index -> (probe index, observable)
+fn entries(probes: &[Probe]) -> Vec<(usize, &'static str)> {
+	let mut v = vec![];
+	for (i, p) in probes.iter().enumerate() {
+		v.push((i, "check_event"));
+		if p.is_dir {
+			v.push((i, "check_dir"));
+		}
+	}
+	v
+}
+
+fn relation(from: Option<&Path>, path: &Path) -> &'static str {
+	match from {
+		None => "unknown",
+		Some(f) if f == Path::new("/") => "global",
+		Some(f) if path.starts_with(f) => "ancestor-dir",
+		Some(f) if path.to_string_lossy().starts_with(&*f.to_string_lossy()) => "name-prefix-dir",
+		Some(_) => "unrelated-dir",
+	}
+}
+
+struct Viol {
+	key: String,
+	detail: String,
+	probe: usize,
+	cons: String,
+	observable: &'static str,
+}
+
+struct Eval {
+	evals: u64,
+	model_vec: Vec<Option<bool>>,
+	unspecified: u64,
+	viols: Vec<Viol>,
+}
+
+fn write_files(real: &[IgnoreFile], cfg: &Config) {
+	for (f, spec) in real.iter().zip(&cfg.files) {
+		let mut body = spec.lines.join("\n");
+		body.push('\n');
+		std::fs::write(&f.path, body).expect("write ignore file");
+	}
+}
+
+fn remove_files(real: &[IgnoreFile]) {
+	for f in real {
+		let _ = std::fs::remove_file(&f.path);
+	}
+}
+
+fn eval_config(ctx: &Ctx, cfg: &Config) -> Eval {
+	let (real, mf) = ctx.layout(cfg);
+	write_files(&real, cfg);
+	let mut ev = Eval { evals: 0, model_vec: vec![], unspecified: 0, viols: vec![] };
+	let compose = match Compose::new(&ctx.origin, &mf) {
+		Ok(c) => c,
+		Err(e) => {
+			ev.viols.push(Viol { key: "C03/model-error".into(), detail: e, probe: 0, cons: String::new(), observable: "" });
+			remove_files(&real);
+			return ev;
+		}
+	};
+	let ents = entries(&ctx.probes);
+	// model verdict per entry; None = unspecified by the property
+	let decisions: Vec<(model::Decision, model::Decision)> =
+		ctx.probes.iter().map(|p| (compose.decide(&p.path, p.is_dir, false), compose.decide(&p.path, p.is_dir, true))).collect();
+	for (pi, _) in &ents {
+		let (a, b) = &decisions[*pi];
+		if a.ignored == b.ignored {
+			ev.model_vec.push(Some(a.ignored));
+		} else {
+			ev.model_vec.push(None);
+			ev.unspecified += 1;
+		}
+	}
+	let conss = constructions(cfg);
+	let n = cfg.files.len();
+	let mut results: Vec<(Cons, Result<(IgnoreFilterer, Vec<bool>), String>)> = vec![];
+	for c in conss {
+		let r = catch_unwind(AssertUnwindSafe(|| {
+			let f = build(ctx, &c, &real, cfg)?;
+			let f = IgnoreFilterer(f);
+			let v = observe(&f, &ctx.probes, &mut ev.evals);
+			Ok((f, v))
+		}))
+		.unwrap_or_else(|_| Err("panicked".to_string()));
+		results.push((c, r));
+	}
+	remove_files(&real);
+	for (c, r) in &results {
+		if let Err(e) = r {
+			let key = if e == "panicked" { "C03/panic" } else { "C03/construction-error" };
+			ev.viols.push(Viol {
+				key: format!("{key}/{}", c.kind(n)),
+				detail: format!("{} on {} failed: {e}", c.label(), cfg.json()),
+				probe: 0,
+				cons: c.label(),
+				observable: "",
+			});
+		}
+	}
+	let ok: Vec<(&Cons, &IgnoreFilterer, &Vec<bool>)> = results.iter().filter_map(|(c, r)| r.as_ref().ok().map(|(f, v)| (c, f, v))).collect();
+	for (ei, (pi, obs)) in ents.iter().enumerate() {
+		let Some(want) = ev.model_vec[ei] else { continue };
+		let bad: Vec<&(&Cons, &IgnoreFilterer, &Vec<bool>)> = ok.iter().filter(|(_, _, v)| v[ei] != want).collect();
+		if bad.is_empty() {
+			continue;
+		}
+		let p = &ctx.probes[*pi];
+		let (c0, f0, _) = bad[0];
+		let kinds: BTreeSet<&str> = bad.iter().map(|(c, _, _)| c.kind(n)).collect();
+		let all_bad = bad.len() == ok.len();
+		let m = f0.0.match_path(&p.path, p.is_dir);
+		let (ikind, ifrom, ipat) = match &m {
+			ignore::Match::None => ("none", None, String::new()),
+			ignore::Match::Ignore(g) => ("ignore", g.from().map(Path::to_path_buf), g.original().to_string()),
+			ignore::Match::Whitelist(g) => ("negation", g.from().map(Path::to_path_buf), g.original().to_string()),
+		};
+		let irel = if ikind == "none" { "-" } else { relation(ifrom.as_deref(), &p.path) };
+		let md = &decisions[*pi].0;
+		let (mkind, mrel) = match &md.by {
+			None => ("none", "-"),
+			Some((d, neg, _)) => (
+				if *neg { "negation" } else { "ignore" },
+				match d {
+					None => "global",
+					Some(d) => {
+						// nearest = first ancestor directory that has files at all
+						let mut cur = p.path.parent();
+						let mut nearest = None;
+						while let Some(x) = cur {
+							if compose.has_files_in(x) {
+								nearest = Some(x.to_path_buf());
+								break;
+							}
+							cur = x.parent();
+						}
+						if nearest.as_deref() == Some(d.as_path()) {
+							"nearest-dir"
+						} else {
+							"farther-dir"
+						}
+					}
+				},
+			),
+		};
+		let dir = if want { "passes-but-model-ignores" } else { "ignores-but-model-passes" };
+		let key = if !all_bad {
+			let new_only = kinds.iter().all(|k| matches!(*k, "new" | "new-permuted" | "new-repeat" | "new-prefix+add_file"));
+			if cfg.has_same_site_files() && new_only {
+				"C03/same-dir-precedence/new-does-not-keep-listed-order".to_string()
+			} else {
+				format!("C03/construction-dependent/{}", kinds.iter().copied().collect::<Vec<_>>().join("+"))
+			}
+		} else if irel == "name-prefix-dir" && ikind == "negation" {
+			"C03/scope/negation-leaks-to-name-prefix-sibling".to_string()
+		} else if irel == "name-prefix-dir" && ikind == "ignore" && want {
+			"C03/scope/out-of-scope-match-in-name-prefix-sibling-shadows-outer-ignore".to_string()
+		} else {
+			format!("C03/compose/{dir}/impl-decider={ikind}:{irel}/model-decider={mkind}:{mrel}/probe-{}", p.class)
+		};
+		let detail = format!(
+			"files {} ; probe {} as {} ; {obs} via {} says {} ; model says {} (decided by {}) ; match_path = {ikind} {:?} from {:?} ; constructions disagreeing with the model: {}/{} [{}]",
+			cfg.json(),
+			p.rel,
+			if p.is_dir { "dir" } else { "file" },
+			c0.label(),
+			if want { "pass" } else { "IGNORED" },
+			if want { "IGNORED" } else { "pass" },
+			md.by.as_ref().map_or("nothing".to_string(), |(d, _, pat)| format!(
+				"{pat:?} in {}",
+				d.as_ref().map_or(GLOBAL.to_string(), |d| d.strip_prefix(&ctx.base).unwrap_or(d).display().to_string())
+			)),
+			ipat,
+			ifrom.as_ref().map(|d| d.strip_prefix(&ctx.base).unwrap_or(d).display().to_string()),
+			bad.len(),
+			ok.len(),
+			kinds.iter().copied().collect::<Vec<_>>().join(","),
+		);
+		ev.viols.push(Viol { key, detail, probe: *pi, cons: c0.label(), observable: obs });
+	}
+	// repeated construction from identical inputs
+	let first = ok.iter().find(|(c, _, _)| matches!(c, Cons::New(o) if o.iter().copied().eq(0..n)));
+	let rep = ok.iter().find(|(c, _, _)| matches!(c, Cons::NewRepeat));
+	if let (Some((_, _, a)), Some((_, _, b))) = (first, rep) {
+		if let Some(ei) = (0..a.len()).find(|i| a[*i] != b[*i]) {
+			let (pi, obs) = ents[ei];
+			let p = &ctx.probes[pi];
+			ev.viols.push(Viol {
+				key: if cfg.has_same_site_files() {
+					"C03/same-dir-precedence/new-unstable-across-repeats".into()
+				} else {
+					"C03/repeat/new-unstable-across-repeats".into()
+				},
+				detail: format!(
+					"files {} ; probe {} as {} ; {obs}: first new() says ignored={}, second identical new() says ignored={}",
+					cfg.json(),
+					p.rel,
+					if p.is_dir { "dir" } else { "file" },
+					a[ei],
+					b[ei]
+				),
+				probe: pi,
+				cons: "new-repeat".into(),
+				observable: obs,
+			});
+		}
+	}
+	ev
+}
+
+// ---------------------------------------------------------------------------------------
+// read-completion leg: same-site files are FIFOs, released in a chosen order
+
+#[derive(Clone, Debug)]
+struct FifoCase {
+	site: String,
+	lines: Vec<String>,
+	/// release[k] = index of the file released k-th
+	release: Vec<usize>,
+}
+
+impl FifoCase {
+	fn json(&self) -> Value {
+		json!({"kind": "fifo", "site": self.site, "lines": self.lines, "release": self.release})
+	}
+	fn from_json(v: &Value) -> Option<Self> {
+		Some(FifoCase {
+			site: v["site"].as_str()?.to_string(),
+			lines: v["lines"].as_array()?.iter().filter_map(|l| l.as_str().map(str::to_string)).collect(),
+			release: v["release"].as_array()?.iter().filter_map(|l| l.as_u64().map(|x| x as usize)).collect(),
+		})
+	}
+}
+
+fn perms(n: usize) -> Vec<Vec<usize>> {
+	if n == 0 {
+		return vec![vec![]];
+	}
+	let mut out = vec![];
+	for p in perms(n - 1) {
+		for i in 0..=p.len() {
+			let mut q = p.clone();
+			q.insert(i, n - 1);
+			out.push(q);
+		}
+	}
+	out.sort();
+	out
+}
+
+fn fifo_cases(tier: Tier) -> Vec<FifoCase> {
+	let ls = ["x.log", "!x.log", "*.log", "!*.log"];
+	let mut v = vec![];
+	let sites: &[&str] = if tier == Tier::Quick { &["", "test", GLOBAL] } else { &SITES };
+	for s in sites {
+		for a in ls {
+			for b in ls {
+				if a == b {
+					continue;
+				}
+				for r in perms(2) {
+					v.push(FifoCase { site: s.to_string(), lines: vec![a.into(), b.into()], release: r });
+				}
+			}
+		}
+	}
+	let tri = ["*.log", "!x.log", "x.log"];
+	let sites3: &[&str] = if tier == Tier::Quick { &[""] } else { &["", "test", GLOBAL] };
+	for s in sites3 {
+		for o in perms(3) {
+			for r in perms(3) {
+				v.push(FifoCase { site: s.to_string(), lines: o.iter().map(|i| tri[*i].to_string()).collect(), release: r });
+			}
+		}
+	}
+	v
+}
+
+const FIFO_GAP_MS: u64 = 40;
+
+fn eval_fifo(ctx: &Ctx, case: &FifoCase, evals: &mut u64) -> Result<Vec<Viol>, String> {
+	let cfg = Config { files: case.lines.iter().map(|l| FileSpec { site: case.site.clone(), lines: vec![l.clone()] }).collect() };
+	let (real, mf) = ctx.layout(&cfg);
+	let compose = Compose::new(&ctx.origin, &mf)?;
+	for f in &real {
+		let _ = std::fs::remove_file(&f.path);
+		nix::unistd::mkfifo(&f.path, nix::sys::stat::Mode::from_bits_truncate(0o600)).map_err(|e| format!("mkfifo: {e}"))?;
+	}
+	// one releaser thread per FIFO: sleep its slot, then open for writing (blocks until the
+	// reader has it open), write, close. Works whatever order the reader opens them in.
+	let mut handles = vec![];
+	for (slot, fi) in case.release.iter().enumerate() {
+		let path = real[*fi].path.clone();
+		let body = format!("{}\n", case.lines[*fi]);
+		handles.push(std::thread::spawn(move || {
+			std::thread::sleep(Duration::from_millis(FIFO_GAP_MS * (slot as u64 + 1)));
+			if let Ok(mut f) = std::fs::OpenOptions::new().write(true).open(&path) {
+				let _ = f.write_all(body.as_bytes());
+			}
+		}));
+	}
+	let origin = ctx.origin.clone();
+	let built = ctx.rt.block_on(async { tokio::time::timeout(Duration::from_secs(10), IgnoreFilter::new(&origin, &real)).await });
+	if built.is_err() {
+		// unblock releasers that are still waiting for a reader
+		for f in &real {
+			let _ = std::fs::OpenOptions::new().read(true).custom_flags_nonblock().open(&f.path);
+		}
+	}
+	for h in handles {
+		let _ = h.join();
+	}
+	remove_files(&real);
+	let filter = match built {
+		Err(_) => return Err("IgnoreFilter::new did not finish within 10 s on FIFO-backed ignore files".into()),
+		Ok(Err(e)) => return Err(format!("IgnoreFilter::new failed on FIFO-backed ignore files: {e}")),
+		Ok(Ok(f)) => IgnoreFilterer(f),
+	};
+	let got = observe(&filter, &ctx.probes, evals);
+	let ents = entries(&ctx.probes);
+	let mut viols = vec![];
+	for (ei, (pi, obs)) in ents.iter().enumerate() {
+		let p = &ctx.probes[*pi];
+		let a = compose.decide(&p.path, p.is_dir, false);
+		let b = compose.decide(&p.path, p.is_dir, true);
+		if a.ignored != b.ignored || got[ei] == a.ignored {
+			continue;
+		}
+		viols.push(Viol {
+			key: "C03/same-dir-precedence/follows-read-completion-order".into(),
+			detail: format!(
+				"{} files applying in {:?} listed as {:?}, reads completing in order {:?}: probe {} as {} {obs} says ignored={}, listed order gives ignored={}",
+				case.lines.len(),
+				case.site,
+				case.lines,
+				case.release,
+				p.rel,
+				if p.is_dir { "dir" } else { "file" },
+				got[ei],
+				a.ignored
+			),
+			probe: *pi,
+			cons: "new(fifo)".into(),
+			observable: obs,
+		});
+		break;
+	}
+	Ok(viols)
+}
+
+trait NonBlock {
+	fn custom_flags_nonblock(&mut self) -> &mut Self;
+}
+impl NonBlock for std::fs::OpenOptions {
+	fn custom_flags_nonblock(&mut self) -> &mut Self {
+		use std::os::unix::fs::OpenOptionsExt;
+		self.custom_flags(0o4000) // O_NONBLOCK on Linux
+	}
+}
+
+// ---------------------------------------------------------------------------------------
+
+pub fn replay(input: &Value) -> Vec<(String, String)> {
+	let scratch = Scratch::new("c03-replay");
+	let ctx = Ctx::new(&scratch.path().join("t0"));
+	if input["kind"] == "fifo" {
+		let Some(case) = FifoCase::from_json(input) else { return vec![("C03/replay/bad-input".into(), "cannot parse fifo case".into())] };
+		let mut n = 0;
+		return match eval_fifo(&ctx, &case, &mut n) {
+			Ok(v) => v.into_iter().map(|v| (v.key, v.detail)).collect(),
+			Err(e) => vec![("C03/replay/machinery".into(), e)],
+		};
+	}
+	let Some(cfg) = Config::from_json(&input["files"]) else { return vec![("C03/replay/bad-input".into(), "cannot parse files".into())] };
+	let ev = eval_config(&ctx, &cfg);
+	let want_probe = input["probe"]["path"].as_str();
+	let want_dir = input["probe"]["is_dir"].as_bool();
+	let mut out: Vec<(String, String)> = vec![];
+	for v in ev.viols {
+		let p = &ctx.probes[v.probe];
+		let same_probe = want_probe.map_or(true, |w| w == p.rel) && want_dir.map_or(true, |d| d == p.is_dir);
+		if same_probe || v.observable.is_empty() {
+			out.push((v.key, v.detail));
+		}
+	}
+	out
+}
+
+fn shuffle<T>(v: &mut [T], seed: u64) {
+	if seed == 0 {
+		return;
+	}
+	let mut s = seed ^ 0x9e37_79b9_7f4a_7c15;
+	for i in (1..v.len()).rev() {
+		s = s.wrapping_mul(6364136223846793005).wrapping_add(1442695040888963407);
+		v.swap(i, ((s >> 33) as usize) % (i + 1));
+	}
+}
+
+pub fn run(tier: Tier, seed: u64) -> EnumOut {
+	let rule = "configuration = ignore files (site, lines) in listed order; evaluation = one check_event / check_dir call on one (construction, probe); non-trivial = distinct (configuration-independent) model verdict vectors over all probes that differ from the no-ignore-files vector (all pass)";
+	let scratch = Scratch::new("c03");
+	let mut cfgs = configs(tier);
+	shuffle(&mut cfgs, seed);
+	let root = scratch.path().to_path_buf();
+	let mut out = par_map(&cfgs, 16, |chunk, idx| {
+		let mut o = EnumOut::new(rule);
+		let ctx = Ctx::new(&root.join(format!("t{idx}")));
+		let stride = (chunk.len() / 2).max(1);
+		let mut unspecified = 0u64;
+		let mut constructions_run = 0u64;
+		for (i, cfg) in chunk.iter().enumerate() {
+			let ev = eval_config(&ctx, cfg);
+			o.states += 1;
+			o.evaluations += ev.evals;
+			unspecified += ev.unspecified;
+			constructions_run += constructions(cfg).len() as u64;
+			let ignored: Vec<&str> =
+				ev.model_vec.iter().zip(entries(&ctx.probes)).filter(|(m, (_, obs))| **m == Some(true) && *obs == "check_event").map(|(_, (pi, _))| ctx.probes[pi].rel.as_str()).collect();
+			if ev.model_vec.iter().any(|m| *m == Some(true)) {
+				o.nontrivial_mark(&ev.model_vec);
+			}
+			if idx < 3 && i % stride == 0 {
+				let mut ig: Vec<&str> = ignored.clone();
+				ig.dedup();
+				o.sample(json!({"files": cfg.json(), "constructions": constructions(cfg).iter().map(Cons::label).collect::<Vec<_>>(), "ignored_probes": ig, "violations": ev.viols.len()}));
+			}
+			for v in ev.viols {
+				let p = &ctx.probes[v.probe];
+				o.violate(
+					v.key,
+					v.detail,
+					json!({"kind": "config", "files": cfg.json(), "probe": {"path": p.rel, "is_dir": p.is_dir}, "construction": v.cons, "observable": v.observable}),
+				);
+			}
+		}
+		o.extra.insert("probe_entries_unspecified_skipped".into(), json!(unspecified));
+		o.extra.insert("constructions_run".into(), json!(constructions_run));
+		o
+	});
+	// read-completion leg
+	let mut fcs = fifo_cases(tier);
+	shuffle(&mut fcs, seed);
+	let fo = par_map(&fcs, 16, |chunk, idx| {
+		let mut o = EnumOut::new(rule);
+		let ctx = Ctx::new(&root.join(format!("f{idx}")));
+		for case in chunk {
+			o.states += 1;
+			let mut n = 0;
+			match eval_fifo(&ctx, case, &mut n) {
+				Ok(vs) => {
+					for v in vs {
+						o.violate(v.key, v.detail, case.json());
+					}
+				}
+				Err(e) => o.machinery = Some(e),
+			}
+			o.evaluations += n;
+		}
+		o.extra.insert("fifo_cases".into(), json!(chunk.len()));
+		o
+	});
+	out.merge(fo);
+	out.rule = rule.to_string();
+	out.extra.insert("probes".into(), json!(probe_rels().len() * 2));
+	out.assumptions = vec![
+		"trusted base: the ignore crate's single-file Gitignore (matched / matched_path_or_any_parents)".into(),
+		"global ignore files hold patterns relative to the project origin".into(),
+		"a path probed against an ignore file applying in that very path is unspecified and skipped".into(),
+	];
+	out
 }
